@@ -792,6 +792,55 @@ def correspondence(ctx):
             "failing": [dict(keep[i], index=i) for i in failing], "error": err}
 
 
+def _judge_declared(c):
+    """Fan-in onto a node created with DECLARED dimensions (never run): the widths of the predecessors add up to the receiver's
+    input dimension, so the construction is legal whichever way it is written; the graph must be built (each operand once, one
+    inserted concatenation feeding the receiver, entries/exits) and must run."""
+    import numpy as np
+    rpy()
+    from reservoirpy import link
+    from reservoirpy.nodes import Concat, Identity
+    _uid[0] += 1
+    tag = "dd%d_" % _uid[0]
+    dims = c["dims"]
+    try:
+        ss = [Identity(name="%ss%d" % (tag, i), input_dim=d, output_dim=d) for i, d in enumerate(dims)]
+        r = Identity(name=tag + "r", input_dim=sum(dims), output_dim=sum(dims))
+        how = c["how"]
+        if how == "list":
+            m = ss >> r
+        elif how == "link":
+            m = link(ss, r)
+        elif how == "merge":
+            m = ss[0] >> r
+            for s_ in ss[1:]:
+                m = m & (s_ >> r)
+        else:
+            u = ss[0]
+            for s_ in ss[1:]:
+                u = u & s_
+            m = u >> r
+        plain = [n for n in m.nodes if type(n) is not Concat]
+        if sorted(n.name for n in plain) != sorted(n.name for n in ss + [r]):
+            return _viol("declared-dims:nodes:wrong-set", "fan-in of declared-dimension nodes: wrong node set", c, None, [n.name for n in m.nodes])
+        if sorted(n.name for n in m.input_nodes) != sorted(n.name for n in ss) or [n.name for n in m.output_nodes] != [r.name]:
+            return _viol("declared-dims:entries-exits", "fan-in of declared-dimension nodes: wrong entries / exits", c)
+        X = {s_.name: np.full((2, d), float(i + 1)) for i, (s_, d) in enumerate(zip(ss, dims))}
+        out = np.asarray(m.run(X))
+        exp = sorted(v for i, d in enumerate(dims) for v in [float(i + 1)] * d)
+        if out.shape != (2, sum(dims)) or sorted(out[0].tolist()) != exp:
+            return _viol("declared-dims:wrong-output", "fan-in of declared-dimension nodes: the receiver does not get each predecessor once", c, exp, out.tolist())
+    except Exception as e:  # noqa: BLE001
+        return _viol("declared-dims:fan-in-rejected", "a legal fan-in of nodes created with declared dimensions %s -> %d (%s) raises %r"
+                     % (dims, sum(dims), c["how"], e), c)
+    return None
+
+
+def declared_cases(rng, count):
+    return [{"kind": "declared", "dims": [rng.randint(1, 3) for _ in range(rng.randint(2, 3))], "how": rng.choice(["list", "link", "merge", "union"])}
+            for _ in range(count)]
+
+
 def oracle(ctx, scale=1):
     rng = ctx.rng("oracle")
     if ctx.thorough:
@@ -810,7 +859,13 @@ def oracle(ctx, scale=1):
         dist[c["law"]] = dist.get(c["law"], 0) + 1
         if v:
             out.append(v)
-    return {"evaluations": len(cases) + len(laws), "violations": out, "distribution": dist,
+    decl = declared_cases(ctx.rng("oracle-declared"), ctx.n(12, 120) * scale)
+    for c in decl:
+        v = _judge_declared(c)
+        dist["declared-dims:" + c["how"]] = dist.get("declared-dims:" + c["how"], 0) + 1
+        if v:
+            out.append(v)
+    return {"evaluations": len(cases) + len(laws) + len(decl), "violations": out, "distribution": dist,
             "rule": "networkx acyclicity of the denoted plain digraph vs RuntimeError; operand nodes once; predecessors received "
                     "through inserted Concats == denoted predecessors, each once; entries/exits; topological order; "
                     "reused operand models unchanged (nodes, edges, entries, exits as sets) and every expression reusing them "
@@ -819,5 +874,5 @@ def oracle(ctx, scale=1):
 
 def replay(payload):
     c = payload["scenario"]
-    v = _judge_law(c) if c.get("kind") == "law" else _judge(c)
+    v = _judge_law(c) if c.get("kind") == "law" else (_judge_declared(c) if c.get("kind") == "declared" else _judge(c))
     return {"violates": bool(v), "detail": v}
